@@ -34,8 +34,8 @@ type c08GT struct { // harness ground truth per (phantom, secret, transport)
 type c08World struct {
 	rd     *RegisteredDecoys
 	ann    []string
-	vtime  map[*DecoyTimeout]int64
-	gt     map[string]*c08GT
+	lastNow int64 // virtual clock (seconds); records are aged by shifting their real timestamps
+	gt      map[string]*c08GT
 	idx    map[string]string // model key "ph,identhex" -> Go timeout index learned at collect
 	logger *log.Logger
 }
@@ -52,7 +52,7 @@ func c08Secret(i int) []byte {
 }
 
 func newC08World() *c08World {
-	w := &c08World{rd: NewRegisteredDecoys(), vtime: map[*DecoyTimeout]int64{}, gt: map[string]*c08GT{}, idx: map[string]string{}}
+	w := &c08World{rd: NewRegisteredDecoys(), gt: map[string]*c08GT{}, idx: map[string]string{}}
 	w.rd.transports[pb.TransportType_Min] = min.Transport{}
 	w.rd.transports[pb.TransportType_Prefix] = prefix.Transport{}
 	w.rd.transports[pb.TransportType_DTLS] = dtls.Transport{}
@@ -65,11 +65,14 @@ func newC08World() *c08World {
 
 func (w *c08World) mkReg(ph, sec, tr int) *DecoyRegistration {
 	src := pb.RegistrationSource_API
+	// flags a client / another station may set must not influence tracking, visibility or expiry
+	pre := sec%2 == 1
 	return &DecoyRegistration{
 		PhantomIp:          net.ParseIP(c08Phantoms[ph]),
 		Keys:               &core.ConjureSharedKeys{SharedSecret: c08Secret(sec)},
 		Transport:          c08Transports[tr],
 		RegistrationSource: &src,
+		Flags:              &pb.RegistrationFlags{Prescanned: &pre},
 	}
 }
 
@@ -84,21 +87,22 @@ func (w *c08World) ident(d *DecoyRegistration) string {
 
 func gtKey(ph, sec, tr int) string { return fmt.Sprintf("%d/%d/%d", ph, sec, tr) }
 
-// stamp gives every timeout record that appeared since the last call its virtual creation time.
-func (w *c08World) stamp(now int64) {
-	for _, to := range w.rd.decoysTimeouts {
-		if _, ok := w.vtime[to]; !ok {
-			w.vtime[to] = now
+// advance moves the virtual clock to `now`: every timeout record is aged by the elapsed virtual time.
+// Only relative shifts are applied, so whatever the code itself writes into registrationTime
+// (creation, or a change a mutation introduces) is preserved and observed.
+func (w *c08World) advance(now int64) {
+	if d := now - w.lastNow; d > 0 {
+		for _, to := range w.rd.decoysTimeouts {
+			to.registrationTime = to.registrationTime.Add(-time.Duration(d) * time.Second)
 		}
+		w.lastNow = now
 	}
 }
 
-// setClock rewrites the real registration times so that time.Since() equals the virtual age.
-func (w *c08World) setClock(now int64) {
-	real := time.Now()
-	for _, to := range w.rd.decoysTimeouts {
-		to.registrationTime = real.Add(-time.Duration(now-w.vtime[to]) * time.Second)
-	}
+// vcreated is the virtual time at which the record's clock started, as the code sees it now.
+func (w *c08World) vcreated(to *DecoyTimeout) int64 {
+	age := time.Since(to.registrationTime)
+	return w.lastNow - int64((age+500*time.Millisecond)/time.Second)
 }
 
 func (w *c08World) dump() string {
@@ -109,7 +113,7 @@ func (w *c08World) dump() string {
 		}
 	}
 	for _, to := range w.rd.decoysTimeouts {
-		t = append(t, fmt.Sprintf("%s,%s,%d,%s", to.decoy, vlib.Hex([]byte(to.identifier)), w.vtime[to], vlib.B(to.status == regStatusUsed)))
+		t = append(t, fmt.Sprintf("%s,%s,%d,%s", to.decoy, vlib.Hex([]byte(to.identifier)), w.vcreated(to), vlib.B(to.status == regStatusUsed)))
 	}
 	sort.Strings(d)
 	sort.Strings(t)
@@ -144,11 +148,12 @@ func runC08(out *vlib.Out, ops []c08Op) (string, string) {
 		enabled := op.tr != 3
 		g := w.gt[gtKey(op.ph, op.sec, op.tr)]
 		w.ann = w.ann[:0]
+		w.advance(op.now)
 		switch op.kind {
 		case 't':
 			mops = append(mops, fmt.Sprintf("t,%s,%s,%d,%d", phs, id, tr, op.now))
+			w.advance(op.now)
 			err := w.rd.Track(d)
-			w.stamp(op.now)
 			if err != nil {
 				outs = append(outs, "err")
 			} else {
@@ -159,8 +164,8 @@ func runC08(out *vlib.Out, ops []c08Op) (string, string) {
 			}
 		case 'r':
 			mops = append(mops, fmt.Sprintf("r,%s,%s,%d,%d", phs, id, tr, op.now))
+			w.advance(op.now)
 			err := w.rd.register(phs, d)
-			w.stamp(op.now)
 			switch {
 			case err != nil:
 				outs = append(outs, "err")
@@ -204,7 +209,7 @@ func runC08(out *vlib.Out, ops []c08Op) (string, string) {
 			}
 		case 's':
 			mops = append(mops, fmt.Sprintf("s,%d", op.now))
-			w.setClock(op.now)
+			w.advance(op.now)
 			n, v := w.rd.removeOldRegistrations(w.logger)
 			outs = append(outs, fmt.Sprintf("swept %d %d", n, v))
 			// ---- property oracle: the age rule, evaluated against the harness ground truth
@@ -296,6 +301,7 @@ func c08RandomHistory(r *vlib.Rand, n, nph, nsec int) []c08Op {
 		case k < 15:
 			op.kind = 's'
 			op.now = now + 30
+			now += 60 // the clock never runs backwards; later operations stay on whole minutes
 		case k < 17:
 			op.kind = 'l'
 		case k < 18:
